@@ -116,6 +116,25 @@ CLAIMS = {
         note=NOTE_COMMON + "CPython bytecode interleaving, the import lock and the GIL are runtime behaviour the model cannot exhibit; the stress run is a search, not a proof.",
         technique="Lean 4 proof (induction over schedules) + shared-write monitor and thread stress on the implementation",
         design="DESIGN.md §5 C19"),
+    'C04': dict(
+        text="Proved on the model of Validator.validate (structured error list; validated against /repo incl. error order), one structure level at a time and for every "
+             "structure and child list: a required row without a matching child yields 'Missing required child'; more children than a row's maximum yields 'Child limit "
+             "exceeded'; a non-Z child that is no row yields 'Invalid children detected' naming it; a level whose counts are within bounds, whose children are declared "
+             "and whose children's reports are empty reports nothing; the report is a function of the tree, is_valid iff no errors, raising form = first error. The "
+             "whole-tree equivalence 'conforms iff no errors' is decided on /repo by an independent declarative conformance judgement over generated instances and "
+             "single-point mutations (partial); it is false for structures with duplicate rows (finding D17).",
+        note=NOTE_COMMON + "Reference = standard tables (profiles: C18, not yet claimed); warnings only through the report-file consistency clause.",
+        technique="Lean 4 proof (list lemmas over the report assembly) + differential correspondence + independent conformance oracle on mutations",
+        design="DESIGN.md §5 C04"),
+    'C05': dict(
+        text="Proved for every input: a base-datatype value accepted under STRICT is accepted under TOLERANT with the very same object; a child admitted into a message/group "
+             "under STRICT is admitted under TOLERANT; STRICT admission refuses the child that would exceed a maximum cardinality; STRICT construction refuses over-long "
+             "text. The whole-parser simulation (same text or same API history accepted under STRICT => accepted under TOLERANT with the same encoding and the same "
+             "validation report, and drawing only missing-required errors) is decided by a side-by-side correspondence over segments, messages and set/add/delete "
+             "histories under both levels (partial).",
+        note=NOTE_COMMON + "Histories act on a fresh Segment here; richer histories belong to C09-C12.",
+        technique="Lean 4 proof (case analysis per datatype kind and admission check) + side-by-side STRICT/TOLERANT differential correspondence",
+        design="DESIGN.md §5 C05"),
 }
 
 PENDING = {}
